@@ -90,6 +90,15 @@ CHECKS["C15"] = dict(
          "by voxel with bin_image (numpy and dask).",
     design="5 C15", technique="Lean 4 proof over generated binning kernels + block-sum correspondence")
 
+CHECKS["C12"] = dict(
+    text="Theorems over generic row types: zip/unzip round trip; every data-frame operation yields f(rows) "
+         "with equal container lengths; head/tail/filter sublists, sort a permutation; slice / mask / int / "
+         "index-list subset of the three parallel containers selects whole rows and rejects bad indices; "
+         "concat appends rows; group_by partitions (distinct keys, homogeneous groups, permutation); length "
+         "invariant over every finite history. numpy/polars row primitives are parameters; histories on "
+         "real Molecules compared with the model.",
+    design="5 C12", technique="Lean 4 proof (invariant by induction over histories) + history correspondence")
+
 NOT_YET = {}
 
 
